@@ -88,6 +88,11 @@ def mtl_backward(
     if tasks_params is None:
         tasks_params = [_get_leaf_tensors(tensors=[loss], excluded=features) for loss in losses]
 
+    # The provided iterables may be consumable only once (e.g. generators), so they have to be
+    # converted to lists before being iterated over by the checks.
+    shared_params = list(shared_params)
+    tasks_params = [list(task_params) for task_params in tasks_params]
+
     if len(features) == 0:
         raise ValueError("`features` cannot be empty.")
 
@@ -98,9 +103,6 @@ def mtl_backward(
         raise ValueError("`losses` cannot be empty")
     if len(losses) != len(tasks_params):
         raise ValueError("`losses` and `tasks_params` should have the same size.")
-
-    shared_params = list(shared_params)
-    tasks_params = [list(task_params) for task_params in tasks_params]
 
     # Check that all parameters expect grad before differentiating anything. Otherwise, the error
     # would only be raised after the .grad fields of some other parameters have been modified.
